@@ -468,6 +468,10 @@ pub fn draw_instance(lim: &Limits) -> Instance {
         0 => 3,
         1 => 4,
         2 | 3 => 3 + tape::w("inst.len.small", 4) as u32,
+        // where the limits allow long traces, one class in six stays in the top of the range (the
+        // per-fragment constraint evaluation, the concurrent FFT / Merkle / transposition paths
+        // and the batched divisor code only run there)
+        5 if lim.max_log_n >= 10 => lim.max_log_n - tape::w("inst.len.top", 3) as u32,
         _ => 3 + tape::w("inst.len.any", (lim.max_log_n - 2) as u64) as u32,
     }
     .min(lim.max_log_n);
